@@ -98,6 +98,40 @@ fn dispatch(cmd: &str, a: &[&str]) -> Result<Vec<String>, String> {
             let req = mk_request(a);
             match crate::cors::Cors::process_using_default_config(&req) { Ok(h) => Ok(headers_out(&h)), Err(e) => Err(e.message) }
         }
+        "process" | "process_request" => {
+            // args: request bytes, request_size, [write script entries: decimal; "E" = error], flags: r=read error f=flush error
+            let input = unhex(a[0]);
+            let size: i64 = a[1].parse().unwrap();
+            let mut script = vec![];
+            let mut read_err = false; let mut flush_err = false;
+            for t in &a[2..] {
+                if *t == "E" { script.push(usize::MAX - 1); }
+                else if *t == "r" { read_err = true; }
+                else if *t == "f" { flush_err = true; }
+                else { script.push(t.parse::<usize>().unwrap()); }
+            }
+            let mut stream = MockStream { input, pos: 0, output: vec![], writes: vec![], flushes: 0, write_script: script, read_err, flush_err };
+            let result: Result<(), String>;
+            if cmd == "process" {
+                let conn = crate::server::ConnectionInfo {
+                    client: crate::server::Address { ip: "127.0.0.1".to_string(), port: 50000 },
+                    server: crate::server::Address { ip: "127.0.0.1".to_string(), port: 7878 },
+                    request_size: size,
+                };
+                let app = crate::app::App {};
+                result = crate::server::Server::process(&mut stream, conn, app);
+            } else {
+                std::env::set_var("RWS_CONFIG_REQUEST_ALLOCATION_SIZE_IN_BYTES", size.to_string());
+                let peer = std::net::SocketAddr::new(std::net::IpAddr::V4(std::net::Ipv4Addr::new(127, 0, 0, 1)), 50000);
+                crate::server::Server::process_request(&mut stream, peer);
+                result = Ok(());
+            }
+            let mut out = vec![hex(&stream.output)];
+            out.push(match &result { Ok(()) => hex(b"ok"), Err(e) => hex(format!("err:{}", e).as_bytes()) });
+            out.push(hex(format!("{}", stream.writes.len()).as_bytes()));
+            out.push(hex(format!("{}", stream.flushes).as_bytes()));
+            Ok(out)
+        }
         _ => include!("oracle_cmds.rs"),
     }
 }
@@ -118,14 +152,14 @@ pub fn main() {
             dispatch(&cmd, &a)
         });
         let reply = match r {
-            Ok(Ok(v)) => format!("ok {}", v.join(" ")),
-            Ok(Err(e)) => format!("err {}", hex(e.as_bytes())),
+            Ok(Ok(v)) => format!("@@ ok {}", v.join(" ")),
+            Ok(Err(e)) => format!("@@ err {}", hex(e.as_bytes())),
             Err(p) => {
                 let msg = if let Some(s) = p.downcast_ref::<String>() { s.clone() } else if let Some(s) = p.downcast_ref::<&str>() { s.to_string() } else { "panic".to_string() };
-                format!("panic {}", hex(msg.as_bytes()))
+                format!("@@ panic {}", hex(msg.as_bytes()))
             }
         };
-        writeln!(out, "{}", reply.trim_end()).unwrap();
+        writeln!(out, "\n{}", reply.trim_end()).unwrap();
         out.flush().unwrap();
     }
 }
